@@ -579,7 +579,13 @@ pub fn at_limit_strategy() -> BoxedStrategy<Case> {
             let mut o = ObjSpec::simple(size, 7);
             o.oti = Some(eff);
             o.location = "file:///limit".into();
-            let _ = cenc_sel;
+            // with a content encoding and incompressible content the transfer length exceeds the content
+            // length: what counts for the wire is the transfer length
+            o.cenc = cenc_sel;
+            if cenc_sel != 0 {
+                o.content.kind = ContentKind::Random;
+                o.md5 = true;
+            }
             let sender = SenderSpec::simple(OtiSpec::nocode(1400, 64));
             Case { sender, objs: vec![o], late_from: 1, late_after: 0, rx: RxSpec { receive_once: once, ..RxSpec::default_once() }, fs_writer: false, step_ms: 100 }
         })
@@ -612,8 +618,8 @@ pub fn run(eng: &mut Engine) {
     eng.generated(
         PartCfg::new(
             "at-limit",
-            "objects of exactly max-1, max, max+1 bytes for tiny E*B (RS28 / RaptorQ 255 blocks, No-Code 65535 blocks) really transmitted: accepted ones must be delivered, ones the wire cannot carry must be refused; non-trivial = always (boundary sizes); distinct by case",
-            tier.pick(120, 1200),
+            "objects of exactly max-1, max, max+1 bytes for tiny E*B (RS28 / RaptorQ 255 blocks, No-Code 65535 blocks), with and without a content encoding over incompressible content (transfer length > content length), really transmitted: accepted ones must be delivered, ones the wire cannot carry must be refused; non-trivial = always (boundary sizes); distinct by case",
+            tier.pick(240, 2400),
         )
         .limit_s(120)
         .hang_violates(),
